@@ -14,7 +14,7 @@ import numpy as np
 
 from ..simkit import gen, refmodel
 from ..simkit.backends import BackendFault, classes
-from ..simkit.core import call, judge
+from ..simkit.core import call, judge, clear_library_caches
 from ..simkit.simfs import Seams, SimFS
 from ..simkit.simrng import POLICIES, SimRNG
 from ..simkit.store import BUFFER_SIZES
@@ -41,6 +41,7 @@ class Spy:
 
 class World:
     PID = PID
+    WATCHDOG_S = 120  # a run of this world takes well under a second; beyond this it is a hang
     TIERS = {
         "quick": {"runs": 5000, "budget_s": 50, "determinism_seeds": 8, "chunk": 20},
         "thorough": {"runs": 80000, "budget_s": 900, "determinism_seeds": 150, "chunk": 100},
@@ -159,9 +160,8 @@ class World:
 
         ShotBackend, SplitSim, _ = classes()
         cfg = plan["config"]
-        wfmod._get_ordering.cache_clear()
-        umod.bitstring_to_tuple.cache_clear()
-        umod.tuple_to_bitstring.cache_clear()
+        clear_library_caches()
+        clear_library_caches()
         fs = SimFS(cfg.get("fs_buffer", 4096))
         seams = Seams(fs).install()
         rng = SimRNG(cfg.get("rng_mode", "real"), cfg.get("rng_policy", "uniform"), ctx.probes).install()
